@@ -106,13 +106,17 @@ def check_case(c, ctx):
         exp = (False, 'exception thrown: ' + oc[1])
     enc_err = oc[0] == 'err' and oc[1] in SIG_ERRS
     nontriv = ck.crypto > 0 or enc_err
-    kind = 'valid-accepted' if (ck.accepted and oc[0] == 'ok') else ('encoding-error' if enc_err else ('invalid-rejected' if ck.crypto > ck.accepted else 'other'))
+    # invalid-rejected: at least one signature went through the cryptographic check and failed it (whatever error the script then ends with:
+    # NULLFAIL, SCHNORR_SIG, EVAL_FALSE ...); encoding-error: refused by an encoding / key-type / hash-type rule before or instead of it
+    kind = 'valid-accepted' if (ck.accepted and oc[0] == 'ok') else ('invalid-rejected' if ck.crypto > ck.accepted else ('encoding-error' if enc_err else 'other'))
     key = repr(case_json(c))
     ctx.case(key, nontriv, dict(case_json(c), expected=exp[1] or 'ok', crypto_evaluations=ck.crypto, accepted=ck.accepted), 'sv%d:%s:%s' % (c['sv'], c['template'], kind))
     ctx.count('kind:' + kind)
     ctx.count('sv:%d' % c['sv'])
     ctx.count('template:' + c['template'])
     ctx.count('corruption:' + c['corruption'])
+    if c['sv'] == R.TAPSCRIPT and len(c['script']) > 250 and b'\x61' * 250 + b'' in c['script']:
+        ctx.count('tapscript-codesep-position>=253' + ('(>=65533)' if len(c['script']) > 65000 else ''))
     if oc[0] == 'err':
         ctx.count('error:' + oc[1])
     if c['corruption'] == 'none' and c['descr'].get('expect_valid'):
